@@ -4,7 +4,7 @@ VIEW TView
 CONSTANTS
   MaxDepth = 1
   LawDepth = 0
-  SeedBodies <- Bodies
+  SeedBodies <- MapBodies
   SeedLayers <- MapLayers
   SeedWraps <- PlainWrap
 CHECK_DEADLOCK FALSE
